@@ -22,6 +22,10 @@ pub trait Grp: 'static {
     fn coords(p: &Self::L) -> (Self::B, Self::B, Self::B);
     fn rmul(k: Fr, p: Self::L) -> Self::L; // the `Fr * P` operator form
     fn lambda(s: &mut Src) -> (Self::B, &'static str);
+    /// a rescaling factor chosen so that a COORDINATE of the representative (lambda^2 x or lambda^3 y) is a boundary value
+    fn lambda_for_coords(_s: &mut Src, _p: &(Self::B, Self::B)) -> Option<(Self::B, &'static str)> {
+        None
+    }
     fn arb_base(s: &mut Src) -> Self::B;
     fn show_b(x: &Self::B) -> String;
     fn enc_b(x: &Self::B) -> Vec<u8>;
@@ -119,6 +123,27 @@ impl Grp for GA {
             }
         }
     }
+    fn lambda_for_coords(s: &mut Src, p: &(F, F)) -> Option<(F, &'static str)> {
+        let q = zp::q();
+        let t = [BigUint::one(), q - 1u32, BigUint::from(2u32), BigUint::from(3u32), (q + 1u32) >> 1][s.choose(5)].clone();
+        if s.bool() {
+            // X = lambda^2 x = t  =>  lambda = sqrt(t / x)
+            let c = zp::mul_mod(&t, &zp::inv_mod(&rf::f_to_big(&p.0), q)?, q);
+            let l = zp::sqrt_mod_5mod8(&c, q)?;
+            if l.is_zero() {
+                return None;
+            }
+            Some((rf::f_from_big(&l), "X-target"))
+        } else {
+            // Y = lambda^3 y = t  =>  lambda = cbrt(t / y); q = 4 (mod 9): cube roots of cubic residues are c^((2q+1)/9)
+            let c = zp::mul_mod(&t, &zp::inv_mod(&rf::f_to_big(&p.1), q)?, q);
+            let l = c.modpow(&((q * 2u32 + 1u32) / 9u32), q);
+            if l.is_zero() || zp::mul_mod(&zp::mul_mod(&l, &l, q), &l, q) != c {
+                return None; // not a cubic residue
+            }
+            Some((rf::f_from_big(&l), "Y-target"))
+        }
+    }
     fn arb_base(s: &mut Src) -> F {
         rf::f_from_big(&felt(s, Md::Q).v)
     }
@@ -181,7 +206,25 @@ impl Grp for GB {
         k * p
     }
     fn lambda(s: &mut Src) -> (R2, &'static str) {
-        match s.choose(8) {
+        match s.choose(10) {
+            8 | 9 => {
+                // component-wise boundary: z = a + b*u with a, b from {0, 1, -1, 2, boundary field element}
+                let comp = |s: &mut Src| -> F {
+                    match s.choose(5) {
+                        0 => F::zero(),
+                        1 => F::one(),
+                        2 => F::one().neg(),
+                        3 => F::from(2u64),
+                        _ => rf::f_from_big(&felt(s, Md::Q).v),
+                    }
+                };
+                let z = R2::new(comp(s), comp(s));
+                if Fld::is_zero(&z) {
+                    (R2::one(), "1")
+                } else {
+                    (z, "componentwise")
+                }
+            }
             6 | 7 => {
                 // derived: choose t = a + b*u with boundary components (0, 1, -1, 2 or a boundary field element) for
                 // z^-2 (or z^-1 if t is not a square in Fq2) and solve for lambda
@@ -218,6 +261,16 @@ impl Grp for GB {
                 }
             }
         }
+    }
+    fn lambda_for_coords(s: &mut Src, p: &(R2, R2)) -> Option<(R2, &'static str)> {
+        let t = [R2::one(), R2::one().neg(), R2::new(F::from(2u64), F::zero()), R2::new(F::zero(), F::one()), R2::new(F::one(), F::one())][s.choose(5)];
+        // X = lambda^2 x = t  =>  lambda = sqrt(t / x)
+        let c = t.mul(&p.0.inv()?);
+        let l = c.sqrt()?;
+        if Fld::is_zero(&l) {
+            return None;
+        }
+        Some((l, "X-target"))
     }
     fn arb_base(s: &mut Src) -> R2 {
         R2::new(rf::f_from_big(&felt(s, Md::Q).v), rf::f_from_big(&felt(s, Md::Q).v))
@@ -325,7 +378,10 @@ pub fn point<G: Grp>(s: &mut Src, k: &BigUint, cat: usize) -> Result<Pt<G>, Fail
             }
         },
         _ => {
-            let (l, ln) = G::lambda(s);
+            let (l, ln) = match if s.choose(6) == 0 { G::lambda_for_coords(s, &a) } else { None } {
+                Some(x) => x,
+                None => G::lambda(s),
+            };
             (Rep::Rescaled, format!("rescaled by {} = {}", ln, G::show_b(&l)), G::rescaled(&a, &l))
         }
     };
